@@ -8,6 +8,7 @@ import os
 import sys
 
 sys.path.insert(0, os.path.join(os.path.dirname(__file__), "..", "lib"))
+sys.path.insert(0, os.path.dirname(os.path.abspath(__file__)))
 import coqlit as L  # noqa: E402
 
 OUT = sys.argv[1]
@@ -173,6 +174,24 @@ def main():
         ["(%s, %s, %s, %s)" % tuple(L.pstr(x) for x in d) for d in inst], "pstr * pstr * pstr * pstr")
     write("Registry.v", body)
     json.dump({"plugins": len(man.plugins)}, sys.stdout)
+
+    # ---- Regexes
+    try:
+        import regex2coq
+        from bandit.plugins import general_hardcoded_password as ghp
+        from bandit.plugins import injection_sql as isql
+        from bandit.plugins import injection_shell as ish
+        from bandit.core import manager as bman
+        body = "From Bandit Require Import Regex.Regex.\n"
+        for nm, pat in (("re_candidates", ghp.RE_CANDIDATES), ("re_simple_sql", isql.SIMPLE_SQL_RE),
+                        ("re_full_path", ish.full_path_match), ("re_nosec", bman.NOSEC_COMMENT),
+                        ("re_nosec_tests", bman.NOSEC_COMMENT_TESTS)):
+            body += "Definition %s : re := %s.\n" % (nm, regex2coq.translate(pat))
+            body += "Definition %s_src : pstr := %s.\n" % (nm, L.pstr(pat.pattern))
+            body += "Definition %s_flags : Z := %s.\n" % (nm, L.Z(pat.flags))
+        write("Regexes.v", body)
+    except Exception as e:
+        write("Regexes.v", "(* translator failed: %s *)\nDefinition TRANSLATOR_FAILED : False := I.\n" % str(e).replace("*)", "* )"))
 
 
 main()
